@@ -62,6 +62,50 @@ mod matching;
 /// Vertex reconstruction.
 pub mod reconstruction;
 
+/// Verification hooks: entry points to crate-private deconvolution and matching routines.
+#[cfg(alpha_g_verif)]
+pub mod verif {
+    use alpha_g_detector::alpha16::aw_map::TPC_ANODE_WIRES;
+    use std::ops::Range;
+
+    pub fn nn_greedy_deconvolution(
+        signal: &[f64],
+        response: &[f64],
+        offset: usize,
+        look_ahead: usize,
+    ) -> (f64, Vec<f64>) {
+        crate::deconvolution::verif_nn_greedy_deconvolution(signal, response, offset, look_ahead)
+    }
+    pub fn ls_deconvolution(
+        signal: &[f64],
+        response: &[f64],
+        offsets: std::ops::RangeInclusive<usize>,
+        look_aheads: std::ops::RangeInclusive<usize>,
+    ) -> Vec<f64> {
+        crate::deconvolution::verif_ls_deconvolution(signal, response, offsets, look_aheads)
+    }
+    pub fn pad_deconvolution(signal: &[f64]) -> Vec<f64> {
+        crate::deconvolution::pads::pad_deconvolution(signal)
+    }
+    pub fn contiguous_ranges(
+        wire_signals: &[Option<Vec<f64>>; TPC_ANODE_WIRES],
+    ) -> Vec<(usize, usize)> {
+        crate::deconvolution::wires::contiguous_ranges(wire_signals)
+    }
+    pub fn wire_range_deconvolution(
+        wire_signals: &[Option<Vec<f64>>; TPC_ANODE_WIRES],
+        range: (usize, usize),
+    ) -> Vec<(usize, Vec<f64>)> {
+        crate::deconvolution::wires::wire_range_deconvolution(wire_signals, range)
+    }
+    pub fn wire_to_pad_column(wire: usize) -> usize {
+        crate::matching::wire_to_pad_column(wire)
+    }
+    pub fn pad_column_to_wires(pad_column: usize) -> Range<usize> {
+        crate::matching::pad_column_to_wires(pad_column)
+    }
+}
+
 /// Townsend avalanche generated in the multiplying region near an anode wire
 /// surface.
 ///
